@@ -115,7 +115,7 @@ if confirmed:
             'files_changed': files, 'demo_files': demos,
             'needs_to_manifest': '(see notes.md)', 'ran': {'with_change: go build ./... ; go test ' + ' '.join(test_pkgs): res['existing_tests_with_change'],
             'demo with change': res['demo_with_change'], 'demo without change': res['demo_without_change']},
-            'checks_against_patched_repo': checks, 'caught_by_checks': caught, 'repo_head': subprocess.check_output(['git', 'rev-parse', '--short', 'HEAD'], cwd='/repo', text=True).strip()}
+            'checks_against_patched_repo': checks, 'caught_by_checks': caught, 'first_contact': {'caught': caught, 'reports': [l for v in checks.values() for l in v['reports']][:2], 'verif_head': subprocess.check_output(['git', 'rev-parse', '--short', 'HEAD'], cwd='/verif', text=True).strip()}, 'repo_head': subprocess.check_output(['git', 'rev-parse', '--short', 'HEAD'], cwd='/repo', text=True).strip()}
     json.dump(meta, open(dst + '/meta.json', 'w'), indent=1)
     print('stored', dst, 'caught=%s' % caught)
 else:
